@@ -700,9 +700,7 @@ pub fn put_frame_with(out: &mut Vec<u8>, f: &Frame, pick_len: &mut dyn FnMut(u64
             out.extend_from_slice(token);
         }
         Frame::RetireConnectionId { seq } => vi(out, *seq),
-        Frame::PathChallenge { data } | Frame::PathResponse { data } => {
-            out.extend_from_slice(data)
-        }
+        Frame::PathChallenge { data } | Frame::PathResponse { data } => out.extend_from_slice(data),
         Frame::ConnectionClose {
             code,
             frame_type,
@@ -769,10 +767,7 @@ pub enum Header {
         packet_len: usize,
     },
     /// short header: everything after the first byte up to the end of the datagram
-    Short {
-        dcid: Vec<u8>,
-        packet_len: usize,
-    },
+    Short { dcid: Vec<u8>, packet_len: usize },
 }
 
 /// What a lenient header parse noticed (see [`header_ex`]).
@@ -801,9 +796,7 @@ pub fn header(b: &[u8], short_dcid_len: usize) -> Res<Header> {
     match n.soft {
         // historical behaviour of this function: only the version-1 connection-id bound is
         // enforced, the other notes are advisory
-        Some(why @ ("dcid longer than 20" | "scid longer than 20")) => {
-            Err(WireError::Invalid(why))
-        }
+        Some(why @ ("dcid longer than 20" | "scid longer than 20")) => Err(WireError::Invalid(why)),
         _ => Ok(h),
     }
 }
@@ -989,7 +982,7 @@ mod tests {
 
     #[test]
     fn encoder_and_parser_agree() {
-        let frames = vec![
+        let want = vec![
             Frame::Padding { len: 3 },
             Frame::Ping,
             Frame::Ack {
@@ -1028,19 +1021,19 @@ mod tests {
             },
         ];
         let mut b = Vec::new();
-        for f in &frames {
+        for f in &want {
             put_frame(&mut b, f);
         }
-        assert_eq!(frames(&b).unwrap(), frames);
-        // RFC 9000 19.3.1 worked layout: largest 100, first range 10, gap 0 (=> 88), len 8
-        assert_eq!(&b[4..12], &[0x02, 0x40, 100, 0x80, 0, 0x40, 0, 2]);
+        assert_eq!(frames(&b).unwrap(), want);
+        // type 0x03 (ECN), largest 100 (2 bytes), delay 16384 (4 bytes), range count 2
+        assert_eq!(&b[4..12], &[0x03, 0x40, 100, 0x80, 0, 0x40, 0, 2]);
         // the same frames with every field in its longest form parse to the same values
         let mut l = Vec::new();
-        for f in &frames {
+        for f in &want {
             put_frame_with(&mut l, f, &mut |_| 8);
         }
         assert!(l.len() > b.len());
-        assert_eq!(super::frames(&l).unwrap(), frames);
+        assert_eq!(frames(&l).unwrap(), want);
     }
 
     #[test]
@@ -1061,7 +1054,10 @@ mod tests {
         assert!(n.soft.is_some() && !n.type_non_minimal);
         // PING with a two-byte frame type
         let mut n = Notes::default();
-        assert_eq!(frame_ex(&mut Cur::new(&[0x40, 0x01]), &mut n), Ok(Frame::Ping));
+        assert_eq!(
+            frame_ex(&mut Cur::new(&[0x40, 0x01]), &mut n),
+            Ok(Frame::Ping)
+        );
         assert!(n.type_non_minimal);
         // ACK whose first range reaches below zero stays a hard error
         assert!(frame_ex(&mut Cur::new(&[0x02, 1, 0, 0, 2]), &mut Notes::default()).is_err());
